@@ -394,7 +394,21 @@ def r9_at_most_once_accounting(ctx):
     ctx.floor('C03.R9', 'component-database questions in the accounting functions', n, 3)
 
 
+def r10_canonical_keys_cover_the_whole_type(ctx):
+    ctx.rule('C03.R10', 'shared with C17.R14: a generic request-scoped constructor is specialised once per CANONICAL type it is asked for; two spellings of one type '
+             'that canonicalise differently are two components, each built once per request — the constructor runs twice and the invariant check, which '
+             'counts per component id, sees nothing. Every recursive walker of rustdoc_ir::Type (the canonicaliser and the predicates in front of it) '
+             'names every variant with nested types.')
+    from .c17 import r14_recursive_walkers_are_total
+    from ..engine import Ctx
+    side = Ctx(ctx.prop, ctx.fb, ctx.tier)
+    r14_recursive_walkers_are_total(side)
+    for ob in side.obs:
+        ctx.ob('C03.R10', ob.key, ob.ok, ob.loc, ob.detail, ob.nontrivial)
+
+
 def check(ctx):
+    r10_canonical_keys_cover_the_whole_type(ctx)
     r1_tables(ctx)
     r2_dedup(ctx)
     r3_invariants(ctx)
